@@ -97,7 +97,8 @@ impl<'n, S: Syntax, D> Iterator for SyntaxNodeChildren<'n, S, D> {
 
     #[inline(always)]
     fn size_hint(&self) -> (usize, Option<usize>) {
-        self.inner.size_hint()
+        let remaining = self.remaining_nodes();
+        (remaining, Some(remaining))
     }
 
     #[inline(always)]
@@ -105,14 +106,27 @@ impl<'n, S: Syntax, D> Iterator for SyntaxNodeChildren<'n, S, D> {
     where
         Self: Sized,
     {
-        self.inner.count()
+        self.remaining_nodes()
+    }
+}
+
+impl<S: Syntax, D> SyntaxNodeChildren<'_, S, D> {
+    /// The number of nodes this iterator will still yield.
+    /// This is not the number of remaining children, because tokens are skipped.
+    #[inline]
+    fn remaining_nodes(&self) -> usize {
+        self.inner
+            .green
+            .clone()
+            .filter(|element| element.as_node().is_some())
+            .count()
     }
 }
 
 impl<S: Syntax, D> ExactSizeIterator for SyntaxNodeChildren<'_, S, D> {
     #[inline(always)]
     fn len(&self) -> usize {
-        self.inner.len()
+        self.remaining_nodes()
     }
 }
 impl<S: Syntax, D> FusedIterator for SyntaxNodeChildren<'_, S, D> {}
